@@ -819,14 +819,6 @@ fn judge(model: &mut Model, h: &[Op]) -> Verdict {
             if m.region.is_none() && m.fresh_same == Some(false) {
                 corr = Some("the model itself leaves H10-history outputs different from its fresh spec (theorem contradicted)".to_owned());
             }
-            // after a dangling index exists (F10) the behaviour depends on which slot petgraph
-            // reuses, i.e. on HashMap iteration order: not a function of the history
-            // (a freed slot can only be reused by `insert_source`, i.e. when the history creates files)
-            let alloc_dependent =
-                m.hits.iter().any(|r| r.starts_with("F10@")) && h.iter().any(|o| matches!(o, Op::Add(..)));
-            if alloc_dependent {
-                return Verdict { oracle, correspondence: corr, region: m.region, processed, skipped: true };
-            }
             if corr.is_some() {
             } else if m.steps.len() != real_steps.len() {
                 corr = Some(format!("model reports {} steps, real {}", m.steps.len(), real_steps.len()));
@@ -1051,7 +1043,12 @@ impl darklua_core::rules::Rule for NeedsContent {
 /// Does a plain fresh run terminate within `secs` when src/a.lua is put on hold for `required`?
 /// (Runs on a detached thread: a hanging run keeps spinning until the harness exits.)
 fn on_hold_run_terminates(required: &'static str, secs: u64) -> Option<bool> {
-    let (tx, rx) = mpsc::channel::<bool>();
+    on_hold_run("src/a.lua", required, secs).map(|r| r.0)
+}
+
+/// (no panic, number of outputs written) of a fresh run where `only_for` is put on hold for `required`
+fn on_hold_run(only_for: &'static str, required: &'static str, secs: u64) -> Option<(bool, usize)> {
+    let (tx, rx) = mpsc::channel::<(bool, usize)>();
     std::thread::spawn(move || {
         let r = catch_unwind(|| {
             let res = Resources::from_memory();
@@ -1060,12 +1057,13 @@ fn on_hold_run_terminates(required: &'static str, secs: u64) -> Option<bool> {
             let rule: Box<dyn darklua_core::rules::Rule> = Box::new(NeedsContent {
                 metadata: Default::default(),
                 required: required.into(),
-                only_for: "src/a.lua".into(),
+                only_for: only_for.into(),
             });
             let cfg = Configuration::empty().with_rule(rule);
             let _ = darklua_core::process(&res, Options::new(INPUT).with_output(OUTPUT).with_configuration(cfg));
+            res.walk(OUTPUT).count()
         });
-        let _ = tx.send(r.is_ok());
+        let _ = tx.send((r.is_ok(), r.unwrap_or(0)));
     });
     match rx.recv_timeout(Duration::from_secs(secs)) {
         Ok(ok) => Some(ok),
@@ -1525,15 +1523,29 @@ fn main_run(report: &mut Report) {
                 }
             }
         }
-        // the model's counter logic agrees: 2 pending, pass 1 finishes 1 -> never exits; finishes 2 -> exits
-        let a = model.ask("c10.genloop 2 2 1 1 0 0 0 0");
-        let b = model.ask("c10.genloop 2 2 2");
-        if a != "false" || b != "true" {
+        // an item on hold for ANOTHER work item must finish in a later pass, whichever is visited first
+        for (only_for, required) in [("src/a.lua", "src/b.lua"), ("src/b.lua", "src/a.lua")] {
+            match on_hold_run(only_for, required, 8) {
+                Some((true, 2)) => {}
+                other => report.violation(Violation {
+                    kind: "oracle".into(),
+                    check: "no-loop-on-hold".into(),
+                    what: format!("run with {} on hold for {}: {:?} (expected termination with both outputs written)", only_for, required, other),
+                    input: json!({"rule": format!("require_content({}) = [{}]", only_for, required), "files": ["src/a.lua", "src/b.lua"]}),
+                    failing_input_found: true,
+                }),
+            }
+        }
+        // the model's counter logic agrees: 2 pending, pass 1 finishes 1, pass 2 nothing -> error;
+        // pass 1 finishes both -> exits
+        let a = model.ask("c10.genloop 2 0 2 1 0 0");
+        let b = model.ask("c10.genloop 2 0 2 2");
+        if a != "errors" || b != "exits" {
             report.violation(Violation {
                 kind: "correspondence".into(),
                 check: "genloop".into(),
-                what: format!("model counter logic answers {} / {} (expected false / true)", a, b),
-                input: json!({"requests": ["c10.genloop 2 2 1 1 0 0 0 0", "c10.genloop 2 2 2"]}),
+                what: format!("model counter logic answers {} / {} (expected errors / exits)", a, b),
+                input: json!({"requests": ["c10.genloop 2 0 2 1 0 0", "c10.genloop 2 0 2 2"]}),
                 failing_input_found: false,
             });
         }
